@@ -129,10 +129,11 @@ def dispatch_table(ctx, cname, server):
             # stores to other attributes (counters, statistics) are not the
             # parking slot and do not change what is parked
             st = [e for e in p.events if e.kind == 'store' and
-                  '_binary_packet' in U(e.expr)]
+                  '_binary_packet' in U(run.expand(e.expr))]
             tgt = 'self._binary_packet[%s]' % eio if server else \
                 'self._binary_packet'
-            good = not hc and len(st) == 1 and U(st[0].expr) == tgt and \
+            good = not hc and len(st) == 1 and \
+                U(run.expand(st[0].expr)) == tgt and \
                 U(run.expand(st[0].extra)) == pk
             ctx.check(good, construct, '[%s] header is parked in %s, '
                       'nothing dispatched' % (t, tgt), key='arm ' + t,
@@ -175,12 +176,13 @@ def reassembly(ctx, cname, server):
                       'packet of this transport, not decoded' % t,
                       key='attach', reason='attachment arm calls %s' % [
                           U(run.expand(e.expr))[:70] for e in add], where=w)
+            X = lambda n: U(run.expand(n))   # noqa: E731
             cleared = [e for e in p.events if
-                       (e.kind == 'del' and U(e.expr) == tgt) or
-                       (e.kind == 'store' and U(e.expr) == tgt and
+                       (e.kind == 'del' and X(e.expr) == tgt) or
+                       (e.kind == 'store' and X(e.expr) == tgt and
                         is_const(e.extra, None)) or
                        (e.kind == 'call' and e.callee() == 'pop' and
-                        U(e.expr.func.value) == 'self._binary_packet')]
+                        X(e.expr.func.value) == 'self._binary_packet')]
             if not done:
                 ctx.check(not hc and not cleared, construct,
                           '[pending %s, incomplete] nothing dispatched, '
@@ -304,12 +306,14 @@ def server_ack(ctx, fam, rid_ack, rid_pack=None):
     construct = S + '._handle_event_internal'
     w = where(f)
     ps = f.params[1:]
-    need = ['server', 'sid', 'eio_sid', 'data', 'namespace', 'id']
-    if ps != need:
+    # the helper is private and called positionally (C05.R4 checks the
+    # binding): its parameters are identified by position, not by name
+    if len(ps) != 6:
         raise AnalysisError('%s signature changed: %s' % (construct, ps))
+    srv_p, sid_p, eio_p, data_p, ns_p, id_p = ps
     for idval in (None, 0, 'pos'):
         for handled in (True, False):
-            run = run_function(f, ctx.model, oracle=id_oracle('id', idval, handled))
+            run = run_function(f, ctx.model, oracle=id_oracle(id_p, idval, handled))
             normal = [p for p in run.paths if p.normal]
             for p in normal:
                 acks = [(e, pk, tgt) for e, pk, tgt in sends(run, p)
@@ -325,9 +329,9 @@ def server_ack(ctx, fam, rid_ack, rid_pack=None):
                           witness=row, rid=rid_ack)
                 for e, pk, tgt in acks:
                     good = pk['type'] == 'ACK' and \
-                        txt(pk.get('namespace')) == 'namespace' and \
-                        txt(pk.get('id')) == 'id' and U(tgt) == 'eio_sid' \
-                        and U(e.expr.func.value) in ('server', 'self')
+                        txt(pk.get('namespace')) == ns_p and \
+                        txt(pk.get('id')) == id_p and U(tgt) == eio_p \
+                        and U(e.expr.func.value) in (srv_p, 'self')
                     ctx.check(good, construct, '[%s] ACK(namespace, id of '
                               'the event) sent to the sender\'s transport'
                               % row, key='ack-shape', reason='answer is %s '
@@ -419,6 +423,17 @@ def callback_typestate(ctx, cname, fname, keys, rid):
                 # callback runs
                 inv.append((e, entry))
         failed = any(e.kind == 'lookup-fails' for e in p.events)
+        # the same decision written as a membership test: the path on which
+        # `k2 in callbacks[k1]` (or `k1 in callbacks`) is false
+        for c in p.conds:
+            a = run.expand(c.atom)
+            if not c.pol and isinstance(a, ast.Compare) and \
+                    isinstance(a.ops[0], ast.In) and (
+                        (U(a.left) == k2 and U(a.comparators[0]) ==
+                         'self.callbacks[%s]' % k1) or
+                        (U(a.left) == k1 and U(a.comparators[0]) ==
+                         'self.callbacks')):
+                failed = True
         if failed:
             n_fail += 1
             muts = [e for e in p.events if e.kind in ('store', 'del')]
